@@ -86,4 +86,30 @@ CHECKS = {
         assumptions=["files the package's Decode rejects in full are outside the property's domain and counted inconclusive"],
         tests=[dict(name="TestC17", quick=640, thorough=12000)],
     ),
+    "C09": dict(
+        level="exploration",
+        rule="three parts. (random) rapid draws animation.Animation values directly: canvas 1..12 (thorough ..32), 1-9 frames with rectangles full / inside / overhanging the right-bottom edge, blend x dispose, opaque/semi/transparent/mixed/edge-value content, HasAlpha flags that never understate, NRGBA and generic frame images. "
+             "(bounded-exhaustive) every frame list of length <=3 (thorough <=4) over an 84-frame alphabet on a 2x2 canvas (4 rectangles incl. overhanging x blend x dispose x 4 alpha patterns x consistent HasAlpha). "
+             "(blend sweep) for sampled (thorough: all 65536) (src alpha, dst alpha) pairs, one 256x256 composite covering all 65536 (src channel, dst channel) combinations. "
+             "Oracle: /verif's key-frame-free reference compositor (transparent start, dispose previous rectangle clipped, overwrite or libwebp-documented integer blend; exact value also accepted where src alpha=255 or dst alpha=0); Reset replays identically; returned snapshots never change (SHA-256); Canvas() equals the last snapshot. "
+             "Non-trivial: list contains a disposal followed by a blended frame, or a frame the decoder's key-frame shortcut accepts at index>0; distinct = per-frame (full, blend, dispose, hasalpha) history; each swept alpha pair counts once.",
+        assumptions=["frame offsets non-negative; HasAlpha never understates (what the demuxer guarantees)", "blend arithmetic = libwebp's BlendPixelNonPremult, which the package documents"],
+        tests=[dict(name="TestC09", quick=8000, thorough=160000), dict(name="TestC09Exhaustive", quick=16, thorough=16, no_replay=True), dict(name="TestC09Blend", quick=16, thorough=16, no_replay=True)],
+    ),
+    "C08": dict(
+        level="exploration",
+        rule="rapid draws frame sequences for the lossless animation encoder: canvas 1..24 (thorough ..64), 1-8 (..14) pictures each derived from the previous one (identical / scattered small-rectangle edit / single pixel / large edit / alpha-only edit / border edit / smaller-than-canvas picture / new picture) over opaque, binary, flat semi-transparent, few-level, gradient, noise and fully transparent content; durations small, zero-mixed, or near 2^24-1 with sums crossing it; Kmin/Kmax in {0,1,2,3,5,9,100,1000}; loop counts incl. >65535 and <0; Quality in {0,50,75,100}. "
+             "Oracle: expected timeline = input canvases (smaller pictures at (0,0) on transparent) with consecutive identical ones merged; actual = DecodeBytes+DecodeFrames+AnimDecoder snapshots merged the same way; pictures equal in order (alpha-0 pixels equal whatever their colour), canvas size equal, and with >=2 distinct pictures per-picture display time, total duration and (clamped) loop count equal; every file passes riffwalk. "
+             "Non-trivial: >=2 distinct pictures and a sub-frame, merged duplicate or forced key frame; distinct = (alpha class, edit kinds, Kmin/Kmax, blend/dispose modes in the file, sub-frame/merge/filler seen).",
+        assumptions=["frame durations are generated in 0..2^24-1 ms (a single duration above the container's 24-bit field cannot be stored)"],
+        tests=[dict(name="TestC08", quick=3200, thorough=48000)],
+    ),
+    "C18": dict(
+        level="exploration",
+        rule="rapid draws frame sequences with binary, few-level, gradient, noise, flat semi-transparent and coloured-transparent alpha x Lossless {false,true} x AllowMixed {false,true} x Quality {0,30,75,95,100} x keyframe settings; durations >= 1 ms. "
+             "Oracle: input and playback are compared as step functions of presentation time: every played-back canvas that is on screen during an input picture's interval has exactly that picture's alpha channel; total duration and canvas size equal (a single picture stored as a still must carry that alpha). "
+             "Non-trivial: a non-opaque pixel exists and the file contains a lossy (VP8) frame; distinct = (mode pair, alpha class, codecs emitted, sub-frames, length).",
+        assumptions=["lossy pictures are not exact, so frames are aligned by time, not by picture equality"],
+        tests=[dict(name="TestC18", quick=3200, thorough=40000)],
+    ),
 }
